@@ -1,3 +1,52 @@
-(** C01 -- stub, replaced below *)
+(** C01 -- every reported adapter match is a genuine, in-tolerance occurrence.
+    Property theorems only; every proof is [exact <lemma>].
+    Model: Model/Align.v (Aligner.locate, the two comparers), Model/Adapters.v (the eight
+    adapter classes; flag values regenerated from the source into Generated/Flags.v).
+
+    Proved here, for every adapter, every threshold table and every read of any length:
+    coordinates inside adapter and read, the documented placement rule of the adapter type,
+    minimum overlap, errors <= thr(number of non-N adapter characters aligned), removal side;
+    and for the comparers (anchored adapters without indels) that the reported error count
+    is exactly the Hamming distance of the two intervals.
+
+    NOT proved here (named so in MANIFEST/DESIGN: C01_sound is partial in this respect):
+    that the cost reported by the banded DP of Aligner.locate equals the edit distance of the
+    reported intervals.  That clause is covered by the correspondence of the model with the
+    implementation plus the textbook-distance oracle only. *)
 From Coq Require Import ZArith List Bool.
-From CV Require Import Model.Align Model.Adapters.
+From CV Require Import Generated.Flags Model.Align Model.Adapters Proofs.AlignProofs Proofs.AdapterProofs.
+Import ListNotations.
+Open Scope Z_scope.
+
+(** Aligner.locate, all 16 flag sets *)
+Theorem C01_locate_structure : forall thr cfg wq ref query r,
+  0 <= thr (zlen ref) ->
+  locate thr cfg wq ref query = Some r -> locate_ok thr cfg ref (zlen query) r.
+Proof. exact locate_structure. Qed.
+Print Assumptions C01_locate_structure.
+
+(** all eight adapter classes (with and without force_anywhere) *)
+Theorem C01_sound_partial : forall thr ad read mt,
+  wf_adapter ad -> 0 <= thr (zlen (a_seq ad)) ->
+  match_to thr ad read = Some mt -> match_ok thr ad (zlen read) mt.
+Proof. exact match_to_structure. Qed.
+Print Assumptions C01_sound_partial.
+
+(** anchored adapters without indels: errors = Hamming distance of the intervals *)
+Theorem C01_comparer_exact : forall wref wq max_k ov ref query a0 a1 r0 r1 sc e,
+  prefix_locate wref wq max_k ov ref query = Some (a0, a1, r0, r1, sc, e) ->
+  let '(s1, s2) := translate_pair wref wq ref query in
+  a0 = 0 /\ r0 = 0 /\ a1 = r1 /\
+  e = mismatches (eqc_of wref wq) (zslice s1 a0 a1) (zslice s2 r0 r1) /\
+  e <= max_k /\ sc = (a1 - a0) - 2 * e.
+Proof. exact prefix_locate_exact. Qed.
+Print Assumptions C01_comparer_exact.
+
+(** non-vacuity: a concrete 3' adapter with one mismatch inside a read; the hypotheses hold
+    and a match is reported *)
+Definition ex_ad : adapter := mkAd Back [65;67;71;84;65;67]%Z true false true 3 false.   (* ACGTAC *)
+Definition ex_thr : Z -> Z := thr_of [0;0;0;0;0;1;1].                                    (* rate 0.2 *)
+Example C01_nonvacuous :
+  wf_adapter ex_ad /\ 0 <= ex_thr (zlen (a_seq ex_ad)) /\
+  match_to ex_thr ex_ad [84;84;65;67;71;71;65;67;84]%Z = Some (mkM 0 6 2 8 4 1 1).       (* TTACGgACT *)
+Proof. vm_compute. repeat split; congruence. Qed.
